@@ -118,6 +118,60 @@ example :
     r.tags = o.tags ∧ r.dicts = o.dicts ∧ o.dicts.length = 2 := by
   decide +kernel
 
+/-! ## histories: repeated saves of one container -/
+
+/-- T5.  `to_npz` is a function of the CURRENT contents of the container only: after ANY history of saves (to the
+    same or other seednames, so with any files already on disk), in-place edits (select_bands, select_kpoints,
+    direct edits of `.data`: same object identity, new content) and replaced files, a save followed by `from_npz`
+    of the same seedname returns every file with the content it has NOW — provided the files of the container are
+    written to different paths (the `mmn_ud` collision F15 excluded). -/
+theorem save_after_any_history {A : Type} (ext : Name → Name) (hist : List (WOp A)) (s0 : WState A) (seed : Name)
+    (hpaths : ((wrun ext hist s0).cont.map (fun p => npzPath ext seed p.1)).Nodup) :
+    let s := wrun ext (hist ++ [WOp.save seed]) s0
+    loadFrom ext seed (s.cont.map (·.1)) s.disk = s.cont.map (fun p => (p.1, p.2.content)) := by
+  intro s
+  have hs : s = wstep ext (wrun ext hist s0) (WOp.save seed) := by
+    simp only [s, wrun, List.foldl_append, List.foldl_cons, List.foldl_nil]
+  rw [hs]
+  simp only [wstep, loadFrom]
+  rw [List.filterMap_map]
+  apply filterMap_eq_map_of_some
+  intro p hp
+  simp only [Function.comp]
+  rw [saveTo_get ext seed _ _ hpaths p hp]
+  rfl
+
+/-- T5'.  In particular what a save leaves for `from_npz` does not depend on what was saved before: two containers
+    with the same current contents but different pasts (different disks, different object identities) load equal. -/
+theorem save_independent_of_past {A : Type} (ext : Name → Name) (h1 h2 : List (WOp A)) (s1 s2 : WState A) (seed : Name)
+    (hp1 : ((wrun ext h1 s1).cont.map (fun p => npzPath ext seed p.1)).Nodup)
+    (hp2 : ((wrun ext h2 s2).cont.map (fun p => npzPath ext seed p.1)).Nodup)
+    (hsame : (wrun ext h1 s1).cont.map (fun p => (p.1, p.2.content)) = (wrun ext h2 s2).cont.map (fun p => (p.1, p.2.content))) :
+    let t1 := wrun ext (h1 ++ [WOp.save seed]) s1
+    let t2 := wrun ext (h2 ++ [WOp.save seed]) s2
+    loadFrom ext seed (t1.cont.map (·.1)) t1.disk = loadFrom ext seed (t2.cont.map (·.1)) t2.disk := by
+  intro t1 t2
+  have e1 := save_after_any_history ext h1 s1 seed hp1
+  have e2 := save_after_any_history ext h2 s2 seed hp2
+  have c1 : t1.cont = (wrun ext h1 s1).cont := by
+    simp only [t1, wrun, List.foldl_append, List.foldl_cons, List.foldl_nil, wstep]
+  have c2 : t2.cont = (wrun ext h2 s2).cont := by
+    simp only [t2, wrun, List.foldl_append, List.foldl_cons, List.foldl_nil, wstep]
+  simp only at e1 e2
+  rw [e1, e2, c1, c2, hsame]
+
+/-- T5''.  Counterexample for the rule "skip a file whose object (identity) was already written to this path":
+    save, edit the file in place (5 bands → 3, same identity), save again under the same seedname — the cached save
+    leaves the stale 5 on disk, the real `to_npz` (which rewrites every file) gives 3. -/
+theorem skip_same_identity_is_stale :
+    let eig : Name := ['e', 'i', 'g']
+    let seed : Name := ['x']
+    let s0 : WState Nat := { cont := [(eig, ⟨7, 5⟩)], disk := [], cache := [] }
+    let edit := fun (s : WState Nat) => wstep id s (WOp.edit eig 3)
+    loadFrom id seed [eig] (saveCached id seed (edit (saveCached id seed s0))).disk = [(eig, 5)] ∧
+    loadFrom id seed [eig] (wrun id [WOp.save seed, WOp.edit eig 3, WOp.save seed] s0).disk = [(eig, 3)] := by
+  decide +kernel
+
 /-! ## WannierData: file names -/
 
 /-- T4.  For every key other than `symmetrizer`, `mmn_ud`, `mmn_du`, `from_npz` looks for exactly the file that
